@@ -174,12 +174,13 @@ impl Trace {
         self.decisions.iter().map(|d| d.chosen).collect()
     }
     pub fn outcome_hash(&self) -> u64 {
-        let mut h = std::collections::hash_map::DefaultHasher::new();
+        // Runs of consecutive Rule/Feature `Finished` events come out of a
+        // `HashMap::drain()` (fail-fast epilogue): order-insensitive.
+        let mut acc = 0u64;
         for e in &self.events {
-            e.ev.hash(&mut h);
+            acc = fold_event(acc, &e.ev);
         }
-        self.ended.hash(&mut h);
-        h.finish()
+        roll(acc, self.ended)
     }
     pub fn render(&self) -> Vec<String> {
         self.events
@@ -194,6 +195,14 @@ fn install_sentinel() {
     panic::set_hook(Box::new(|_| {
         SENTINEL.with(|s| s.set(s.get() + 1));
     }));
+}
+
+fn fold_event(acc: u64, ev: &Ev) -> u64 {
+    if matches!(ev, Ev::FeatFinished(_) | Ev::RuleFinished(..)) {
+        acc.wrapping_add(roll(0x9e37, ev))
+    } else {
+        roll(acc, ev)
+    }
 }
 
 fn roll(h: u64, x: impl Hash) -> u64 {
@@ -389,7 +398,7 @@ pub fn execute(
                             }
                         }
                     }
-                    ev_hash = roll(ev_hash, &ev);
+                    ev_hash = fold_event(ev_hash, &ev);
                     tr.events.push(TEv {
                         ev,
                         poll,
